@@ -494,9 +494,34 @@ def gen_embedded_label_scenario(rng, tier='quick'):
         used.append(nm)
         st.append(['label', nm])
         text = ''.join(rng.choice('abcXYZ 019!#$%&()*+,-./:<=>?@[]^_{|}~') for _ in range(rng.randint(1, 6)))
-        st.append(['str', 'embedded', '"', text])
+        if rng.random() < 0.4:
+            text = nm + ': ' + text + ' ' + nm + ':'           # the label's own text, colon included, inside the string
+        st.append(['str', rng.choice(['embedded', 'embedded', 'cstr', 'byte']), '"', text])
         if rng.random() < 0.4:
             st += [['instr', 'nop', []], ['str', 'embedded', '"', 'ok']]
     st.append(['data', 2, [('lab', n) for n in used]])
     return {'cfg': cfg, 'files': [{'name': 'main.asm', 'dir': 'src', 'stmts': st}], 'include_dirs': ['lib'], 'extra_files': [],
             'fault': 'embedded-labels', 'opts': _opts(rng, cfg)}
+
+
+# ------------------------------------------------------------------------------------------------ constants from quotients
+def gen_const_chain_scenario(rng, tier='quick'):
+    """a constant has the value of its defining expression, i.e. an integer (the quotient truncated): what later expressions
+    compute with it starts from that integer, not from the fraction"""
+    cfg = base_cfg(rng, {'p_zones': 0.0, 'p_data': 0.0})
+    cfg['embedded'] = False
+    st = []
+    pairs = [(7, 2), (12, 5), (5, 2), (9, 4), (1, 3), (8, 2), (100, 7)]
+    rng.shuffle(pairs)
+    for i, (a, b) in enumerate(pairs[:rng.randint(1, 3)]):
+        k = f'KQ{i}'
+        q = ('bin', '/', num(a), num(b))
+        if rng.random() < 0.3:
+            q = ('neg', q) if rng.random() < 0.5 else ('bin', '-', num(0), q)
+        st.append(['const', k, q])
+        st.append(['const', k + 'b', ('bin', '*', ('lab', k), num(b))])
+        st.append(['data', 2, [('bin', '*', ('lab', k), num(2)), ('bin', '+', ('lab', k), ('lab', k)), ('bin', '-', num(10), ('lab', k)), ('lab', k + 'b')]])
+        if rng.random() < 0.5:
+            st.append(['fill', ('bin', '+', ('bin', '*', ('lab', k), num(2)), num(20)), ('bin', '+', ('lab', k), ('lab', k))])
+    return {'cfg': cfg, 'files': [{'name': 'main.asm', 'dir': 'src', 'stmts': st}], 'include_dirs': ['lib'], 'extra_files': [],
+            'fault': 'const-chain', 'opts': _opts(rng, cfg)}
